@@ -5,8 +5,120 @@ from lib import colfam
 BUDGET = {"quick": 9000, "thorough": 300000}
 
 
+def _targets_of(item):
+    """the target list of one decblock result (ok c r (targets) left | fail (targets) | crash k)"""
+    if isinstance(item, list) and item:
+        if item[0] == "ok" and len(item) >= 4 and isinstance(item[3], list):
+            return item[3]
+        if item[0] == "fail" and len(item) >= 2 and isinstance(item[1], list):
+            return item[1]
+    return None
+
+
+def _masked_seq(model, impl):
+    """Masking for sequences against reused targets.  A column whose DecodeColumn failed half way holds unspecified
+    contents (the model prints ? in that block and models the column as reset).  The implementation keeps those contents
+    until a later block resets the column, i.e. for as long as the model's contents of that target do not change: they
+    stay masked for exactly that long."""
+    from checks.c18 import _parse, _unparse, _mask
+    pm, pg = _parse(model), _parse(impl)
+    if pm is None or pg is None or not pm or pm[0] != "seq" or not pg or pg[0] != "seq" or len(pm) != len(pg):
+        return None
+    carry = {}      # target index -> the model's contents while the implementation's are unspecified (None = not yet known)
+    out = ["seq"]
+    for bm, bg in zip(pm[1:], pg[1:]):
+        tm, tg = _targets_of(bm), _targets_of(bg)
+        if tm is not None and tg is not None and len(tm) == len(tg):
+            for i, (xm, xg) in enumerate(zip(tm, tg)):
+                if not (isinstance(xm, list) and isinstance(xg, list) and len(xm) == len(xg) and len(xm) >= 3):
+                    carry.pop(i, None)
+                    continue
+                if xm[-1] == "?":
+                    carry[i] = None
+                    continue
+                if i in carry:
+                    if carry[i] is None:
+                        carry[i] = xm[-1]
+                    if carry[i] == xm[-1] and bm[0] == "fail":
+                        xg[-1] = xm[-1]       # still the contents of the half-decoded column: not compared
+                    else:
+                        del carry[i]
+        else:
+            carry = {}
+        out.append(_mask(bm, bg))
+    return " ".join(_unparse(x) for x in out)
+
+
+def _masked_any(model, impl):
+    from checks.c18 import masked
+    if model.startswith("seq ") and impl.startswith("seq "):
+        r = _masked_seq(model, impl)
+        if r is not None:
+            return r
+    return masked(model, impl)
+
+
+def _run_blocks(res, fam, n, seed, builds=("default",), compare=True):
+    """Whole hostile blocks (harness/c06blk.go): the case lines are those of the C18 glue (model/GlueRes.v), the model
+    (Results.decode_block_st / run_blocks) runs the same bytes against the same targets.  Contents the model prints as ?
+    (a column whose decoding failed half way) are not compared.  A process that dies (fatal out-of-memory, stack
+    overflow) is an observation about ch-go: the case named in the pending file is reported."""
+    import os
+    wd = C.workdir(res.pid)
+    for build in builds:
+        tags = ("purego",) if build == "purego" else ()
+        binp = C.build_harness(tags=tags)
+        out = os.path.join(wd, "%s_%s_%d.tsv" % (fam, build, seed))
+        pend = os.path.join(wd, "%s_%s_pending.txt" % (fam, build))
+        if os.path.exists(pend):
+            os.remove(pend)
+        rc, log, stats, dt = C.run_harness(binp, fam, seed, n, res.tier, out, extra=["pending=" + pend])
+        if rc != 0:
+            case = open(pend).read().strip() if os.path.exists(pend) else ""
+            if case:
+                res.oracle_fail(case[:4000], "process aborted while decoding (rc=%s): %s" % (rc, log[-400:].replace("\n", " ")))
+            else:
+                raise C.Infra("harness %s (%s) failed:\n%s" % (fam, build, log[-2000:]))
+        if rc != 0 and os.path.exists(out):
+            # the process died: keep the complete lines of what it had written
+            good = [l for l in open(out, errors="replace").read().split("\n") if l.count("\t") == 2]
+            open(out, "w").write("".join(l + "\n" for l in good))
+        rows = C.read_transcript(out) if os.path.exists(out) else []
+        if compare:
+            model = C.run_eval("Res", [r[0] for r in rows])
+            rows_m = [(c, g if g == "-" else _masked_any(m, g), o) for (c, g, o), m in zip(rows, model)]
+            C.compare_rows(res, rows_m, model, "correspondence(%s,%s)" % (fam, build))
+            if len(res.samples) < 10:
+                seen = set()
+                for r, m in zip(rows, model):
+                    key = (r[0].split(" ", 1)[0], r[1].split(" ", 1)[0])
+                    if key not in seen and len(r[0]) < 700 and r[1] != "-":
+                        seen.add(key)
+                        res.samples.append({"case": r[0][:400], "implementation": r[1][:400], "model": m[:400], "oracle": r[2][:200]})
+            short = [(r, m) for r, m in zip(rows, model) if len(r[0]) < 1200 and r[1] != "-"]
+            ok, k, slog = C.coq_sample("GlueRes", C.sample_pairs([r for r, _ in short], [m for _, m in short], seed, k=8), wd,
+                                       "%s_%s" % (fam, build))
+            res.extra["in_coq_sample"] = res.extra.get("in_coq_sample", 0) + k
+            if not ok:
+                res.tie_broken("extraction", "vm_compute inside Coq disagrees with the extracted evaluator:\n" + slog)
+        else:
+            for c, g, o in rows:
+                if o.startswith("FAIL"):
+                    res.oracle_fail(c, o[5:])
+        res.account(rows)
+        for k, v in stats.items():
+            key = "%s.%s.%s" % (fam, build, k)
+            res.distribution[key] = res.distribution.get(key, 0) + v
+        if os.path.exists(out):
+            os.remove(out)
+
+
 def explore(res, scale=1, seed=None):
     seed = res.seed if seed is None else seed
+    # whole hostile blocks into Results.Auto(), typed Results and reused targets; model = Results.decode_block_st
+    _run_blocks(res, "c06blk", (1000 if res.tier == "quick" else 40000) * scale, seed, builds=("default", "purego") if res.tier != "quick" else ("default",))
+    # type strings nested 100 000 .. 4 000 000 levels deep: stack and time (the process dying is the observation)
+    _run_blocks(res, "c06deep", (64 if res.tier == "quick" else 400) * min(scale, 2), seed, compare=False)
     # the harness runs under an address-space limit (common.run_harness): an allocation driven by an
     # unchecked length takes the process down, which is reported with the pending input as the replay
     colfam.run_family(res, "c06", BUDGET[res.tier] * scale, seed, builds=("default", "purego"))
@@ -18,11 +130,13 @@ def explore(res, scale=1, seed=None):
     colfam.run_family(res, "c06msg", BUDGET[res.tier] * scale // 3, seed, builds=("default",), glue="Msg", gluemod="GlueMsg")
     res.extra["rule"] = ("field-targeted mutants of valid column encodings of the catalogue (8-byte windows set to boundary and huge "
                          "values, single bytes, bit flips, spliced over-long varints, splices between columns, other declared row "
-                         "counts) decoded through typed columns in both builds, mutated protocol messages, and blocks whose column type string is malformed (C19's generator plus enum definitions and deep nesting) decoded through inference and through type-adopting targets; observation: ok with "
+                         "counts) decoded through typed columns in both builds, mutated protocol messages, and blocks whose column type string is malformed (C19's generator plus enum definitions and deep nesting) decoded through inference and through type-adopting targets; whole blocks built from the parts of a real encoder's block with one or two parts mutated (column/row counts at and beyond the caps, names, grammar-aware type-string mutants incl. nesting to 5 000 levels, custom-serialization flag, state prefixes, bodies, block-info loop, cuts) into Results.Auto(), typed Results with AutoResult targets mixed in, and the same targets reused over 2-4 hostile blocks, compared with Results.decode_block_st of the model; type strings nested 100 000 and 4 000 000 levels deep for stack and time; observation: ok with "
                          "contents + Rows() + every Row(i) readable | err | crash; non-trivial = distinct (case kind, class) or distinct accepted input")
     res.assumptions = [
         "resident memory and stack depth are runtime facts: observed under an address-space limit, not proved (partial)",
         "by-design allocations (rows within the 10^8 cap x element width) above a few hundred MiB are not provoked on the implementation",
+        "block level: blocks whose type strings exceed 2 000 bytes run on the implementation only (the list-based model is quadratic in the nesting depth); the model of ColAuto.Infer has no depth limit: beyond 64 levels both reject (nothing deeper than 2 wrapper levels is inferable)",
+        "block level: what a FAILED DecodeBlock leaves in the target whose DecodeColumn failed is modelled as a reset column and masked in the comparison (the implementation leaves a partially decoded column)",
     ]
 
 
